@@ -10,7 +10,8 @@ BUDGET = {"quick": 1200, "thorough": 240000}
 RULE = ("case = (way of obtaining an object) x (element type Int|Float|String|Ref|Probe|Tuple) x (list of freeing / reallocating "
         "operations) in a generated surrounding state (container kind, size, position). Ways: new, new_raw, new_root, stack "
         "($), copy, static (type objects, _), element of Array/List via get and via iteration, key/value of Table/Tree via get / "
-        "iteration, items yielded by Range/Slice/Zip/Filter/Map (heap and stack forms). Oracle: type_of == constructing / "
+        "iteration (the container constructed with its elements, or retyped by assign / copy from an empty or a full source of "
+        "another element type, or cleared and refilled), items yielded by Range/Slice/Zip/Filter/Map (heap and stack forms). Oracle: type_of == constructing / "
         "element / key / value type and the header's allocation class == expected (heap/stack/static/data); writing a new "
         "value through the object and reading it back works (ASan watches the size(type) bytes); for non-heap objects every "
         "one of del_raw, dealloc, dealloc_raw, resize, concat, append, assign-longer, push/pop/pop_at/push_at raises ResourceError or "
@@ -32,6 +33,7 @@ OBTAIN = ["new", "new_raw", "new_root", "stack", "copy", "static-type", "static-
           "range-heap", "range-stack", "slice-heap", "slice-stack", "zip-heap", "zip-stack", "filter", "map-id", "tuple-elem"]
 FREE_OPS = ["delkeep", "delrootkeep", "delrawkeep", "dealloc", "deallocraw"]
 STR_OPS = ["resize-more", "resize-less", "concat", "append", "assign-longer"]
+HISTS = ["direct", "direct", "assign-empty", "assign-full", "copy-empty", "copy-full", "clear-refill"]
 TUP_OPS = ["push", "pop", "pop_at", "push_at", "concat", "resize", "assign"]
 
 
@@ -45,7 +47,14 @@ def _case(draw):
     et = draw(st.sampled_from(ETS + ["Tuple"]))
     n = draw(st.integers(1, 10))
     ops = draw(st.lists(st.sampled_from(FREE_OPS + STR_OPS + TUP_OPS + ["collect", "write"]), min_size=1, max_size=6))
-    return {"obtain": ob, "et": et, "n": n, "pos": draw(st.integers(0, 1000)), "ops": ops}
+    case = {"obtain": ob, "et": et, "n": n, "pos": draw(st.integers(0, 1000)), "ops": ops}
+    if ob.split("-")[0] in ("array", "list", "table", "tree"):
+        # how the container came to hold its elements (omitted = constructed with them)
+        h = draw(st.sampled_from(HISTS))
+        if h != "direct":
+            case["hist"] = h
+            case["was"] = draw(st.sampled_from(ETS))
+    return case
 
 
 def strategy(tier):
@@ -116,7 +125,30 @@ def build_prog(case):
         exp_type, exp_alloc, val_repr, writable = None, STATIC, "_", False
     elif ob in ("array-get", "array-iter", "list-get", "list-iter"):
         kind = "Array" if ob.startswith("array") else "List"
-        P.add("new %%0 heap t:%s t:%s %s" % (kind, et, " ".join(items)))
+        hist, was = case.get("hist", "direct"), case.get("was", "Int")
+        if was == "Probe":
+            P.add("pmode 0")
+        if hist == "direct":
+            P.add("new %%0 heap t:%s t:%s %s" % (kind, et, " ".join(items)))
+        elif hist == "clear-refill":
+            P.add("new %%0 heap t:%s t:%s %s %s" % (kind, et, FILL[et], FILL[et]))
+            P.add("resize %0 0")
+            for x in items:
+                P.add("push %%0 %s" % x)
+        else:
+            # the container is (re)typed by assign / copy from a source of element type et, empty or full
+            full = hist.endswith("full")
+            P.add("new %%4 heap t:%s t:%s %s" % (kind, et, " ".join(items) if full else ""))
+            if hist.startswith("assign"):
+                P.add("new %%0 heap t:%s t:%s %s %s %s" % (kind, was, FILL[was], LIT[was], FILL[was]))
+                P.add("assign %0 %4", lambda o: None if o.startswith("ok") else "assign failed " + o)
+            else:
+                P.add("copy %0 %4", lambda o: None if o.startswith("ok") else "copy failed " + o)
+            if not full:
+                for x in items:
+                    P.add("push %%0 %s" % x)
+            P.add("del %4")
+            P.add("zero %4")
         if ob.endswith("get"):
             P.add("get %%0 i:%d %%1" % pos, expect_ok(lit_repr(LIT[et])))
         else:
@@ -131,13 +163,44 @@ def build_prog(case):
         kt, vt = (et, "Int") if iskey else ("Int", et)
         if iskey and et == "Float":
             pass
-        P.add("new %%0 heap t:%s t:%s t:%s" % (kind, kt, vt))
+        hist, was = case.get("hist", "direct"), case.get("was", "Int")
+        if was == "Probe":
+            P.add("pmode 0")
+        fill = "%4" if hist in ("assign-full", "copy-full") else "%0"
+        if hist in ("direct", "clear-refill", "assign-full", "copy-full"):
+            P.add("new %s heap t:%s t:%s t:%s" % (fill, kind, kt, vt))
+            if hist == "clear-refill":
+                P.add("set %%0 %s %s" % (FILL[kt], FILL[vt]))
+                P.add("resize %0 0")
+        else:
+            P.add("new %%4 heap t:%s t:%s t:%s" % (kind, kt, vt))
+            if hist == "assign-empty":
+                wk, wv = (was, "Int") if not iskey else ("Int", was)
+                P.add("new %%0 heap t:%s t:%s t:%s" % (kind, wk, wv))
+                P.add("set %%0 %s %s" % (FILL[wk], LIT[wv]))
+                P.add("set %%0 %s %s" % (LIT[wk], FILL[wv]))
+                P.add("assign %0 %4", lambda o: None if o.startswith("ok") else "assign failed " + o)
+            else:
+                P.add("copy %0 %4", lambda o: None if o.startswith("ok") else "copy failed " + o)
+            P.add("del %4")
+            P.add("zero %4")
         for j in range(n):
             if iskey:
                 k = LIT[et] if j == pos else {"Int": "i:%d" % (100 + j), "Float": "f:%016x" % gen.f2b(100.5 + j), "String": "s:" + ("k%d" % j).encode().hex(), "Probe": "p:%d" % (100 + j)}[et]
-                P.add("set %%0 %s i:%d" % (k, j))
+                P.add("set %s %s i:%d" % (fill, k, j))
             else:
-                P.add("set %%0 i:%d %s" % (j, LIT[et] if j == pos else FILL[et]))
+                P.add("set %s i:%d %s" % (fill, j, LIT[et] if j == pos else FILL[et]))
+        if hist in ("assign-full", "copy-full"):
+            # the filled map becomes the source; the map under test is assigned / copied from it
+            if hist == "assign-full":
+                wk, wv = (was, "Int") if not iskey else ("Int", was)
+                P.add("new %%0 heap t:%s t:%s t:%s" % (kind, wk, wv))
+                P.add("set %%0 %s %s" % (FILL[wk], LIT[wv]))
+                P.add("assign %0 %4", lambda o: None if o.startswith("ok") else "assign failed " + o)
+            else:
+                P.add("copy %0 %4", lambda o: None if o.startswith("ok") else "copy failed " + o)
+            P.add("del %4")
+            P.add("zero %4")
         if iskey:
             P.add("findkey %%0 %s %%1" % LIT[et], expect_ok("found"))
         else:
@@ -299,7 +362,7 @@ def run_case(ctx, case):
         return Result(None, False, ["combination-does-not-exist"], None)
     P, nt = r
     fail, obs = P.run(ctx.executor("ex_vm"))
-    return Result(fail, nt, ["obtain=" + case["obtain"], "et=" + case["et"]], None)
+    return Result(fail, nt, ["obtain=" + case["obtain"], "et=" + case["et"]] + (["hist=" + case["hist"]] if "hist" in case else []), None)
 
 
 def extra_phase(ctx, tier, stats, sample_fn):
@@ -308,8 +371,11 @@ def extra_phase(ctx, tier, stats, sample_fn):
     for ob in OBTAIN:
         for et in ETS + ["Tuple"]:
             for n in (1, 3, 8):
+              for hist in (HISTS[1:] if ob.split("-")[0] in ("array", "list", "table", "tree") and n == 3 else ["direct"]):
                 for ops in (FREE_OPS + ["collect", "write"] + FREE_OPS, STR_OPS + ["collect"] + STR_OPS, TUP_OPS + ["collect"], ["write", "collect", "write"]):
                     case = {"obtain": ob, "et": et, "n": n, "pos": 500 if n > 1 else 0, "ops": ops}
+                    if hist != "direct":
+                        case.update(hist=hist, was="Probe" if et != "Probe" else "Int")
                     res = run_case(ctx, case)
                     if "combination-does-not-exist" in res.events:
                         continue
